@@ -84,3 +84,26 @@ pub fn naive_memrchr(x: u8, text: &[u8]) -> Option<usize> {
     }
     None
 }
+
+/// `TypeId == TypeId` answered "no".  binrw's `#[br(count = n)]` reader tries ten `Vec<int>` fast
+/// paths by down-casting its container (`<dyn Any>::is::<Vec<int>>()`, a `TypeId` comparison)
+/// before falling back to the generic element-by-element path; under CBMC the comparison (a
+/// pointer-array-to-u128 transmute) is not constant during symbolic execution, so all eleven paths
+/// are explored for every counted vector.  The fast paths are pure optimisations (same bytes, same
+/// values), so answering "no" selects the generic path without changing what is read.  Nothing
+/// else on the paths exercised by the harnesses that use this stub compares `TypeId`s.
+pub fn typeid_never_eq(_a: &core::any::TypeId, _b: &core::any::TypeId) -> bool {
+    false
+}
+
+/// ASCII-only model of core's UTF-8 validator (whose word-at-a-time fast path starts with a
+/// pointer-alignment computation that is nondeterministic under CBMC).  Only for harnesses whose
+/// string bytes are ASCII: a non-ASCII byte is reported as a harness error, never silently skipped.
+pub fn ascii_utf8_validation(v: &[u8]) -> Result<(), core::str::Utf8Error> {
+    let mut i = 0;
+    while i < v.len() {
+        assert!(v[i] < 0x80, "harness precondition: ASCII text only under the ascii_utf8_validation stub");
+        i += 1;
+    }
+    Ok(())
+}
